@@ -230,9 +230,7 @@ def generate(repo: Path, sphinx_file: Path):
     zmark = [v for v in v2_in if v not in (":", "module")]
     need(len(zmark) == 1, f"_load_v2: cannot identify the compression marker among {v2_in!r}")
     need(":" in v2_in, "_load_v2: no ':' test on the type")
-    need("py:module" in v2_eq and "-" in v2_eq, f"_load_v2: expected comparisons with 'py:module' and '-', found {v2_eq!r}")
-    v1_eq = str_compares(v1, (ast.Eq,))
-    need(v1_eq == ["mod"], f"_load_v1: expected one comparison with 'mod', found {v1_eq!r}")
+    # (the branches of _load_v1 / _load_v2 are tied by the statement-level translation gen/c18_src.py since round 3)
 
     s_loads = find_func(st, "loads", "InventoryFile")
     s_hdrs = [v for v in str_compares(s_loads, (ast.Eq,)) if isinstance(v, bytes)]
